@@ -351,6 +351,10 @@ INT_RANGES = [
     (I64_MIN, I64_MAX), (I64_MIN + 1, I64_MAX), (I64_MIN, I64_MAX - 1), (I64_MIN, 0), (I64_MIN, -1),
     (I64_MIN, I64_MIN + 9), (-1, I64_MAX), (I64_MAX - 3, I64_MAX), (U64_MAX - 3, U64_MAX), (-2 ** 40, 2 ** 40),
     (1000, 1000000), (-70000, 5),
+    # a word minimum under a field of another word width (integer fast path of the generator)
+    (-32768, -32513), (-128, 65000), (-128, 65407), (-2 ** 31, -2 ** 31 + 255), (-2 ** 31, -2 ** 31 + 65535),
+    (-32768, 2 ** 32 - 32769), (-128, 2 ** 32 - 129), (I64_MIN, I64_MIN + 255), (I64_MIN, I64_MIN + 65535),
+    (I64_MIN, I64_MIN + 2 ** 32 - 1), (-2 ** 31, 2 ** 31 - 1 - 2 ** 20),
 ]
 
 SIZES = [(0, 0), (1, 1), (2, 2), (3, 3), (7, 7), (8, 8), (0, 1), (0, 2), (0, 3), (1, 2), (1, 4), (2, 5), (0, 7), (0, 8),
@@ -363,6 +367,39 @@ MEMBER_NAMES = ['a', 'b', 'c', 'd', 'e', 'f', 'g', 'h', 'foo', 'bar-baz', 'x1', 
 ENUM_NAMES = ['red', 'green', 'blue', 'a', 'b', 'c', 'd', 'x-y', 'fooBar', 'z9', 'on', 'off', 'k1', 'k2', 'k3', 'k4', 'k5']
 TYPE_NAMES = ['A', 'B', 'C', 'D', 'E', 'F', 'G', 'H', 'Foo', 'FooBar', 'Bar-Baz', 'T1', 'T2x', 'MyType', 'ABc', 'Q']
 MODULE_NAMES = ['M', 'Other-Mod', 'Mod2']
+
+
+def enum_numbers(r, n):
+    """Enumeration numbers of n root enumerators, in the order written: the
+    implicit numbering, permutations of 0..n-1, gaps, negative numbers, and
+    the shapes around "largest number = n - 1" / "smallest = 0" where a test on
+    the extremes and a test on every number disagree."""
+    x = r.random()
+    if x < .4:
+        return list(range(n))
+    if x < .5:
+        nums = list(range(n))
+        r.shuffle(nums)
+        return nums
+    if x < .65:
+        # largest is n - 1, some smaller ones pushed below zero (the sorted positions differ from the numbers)
+        nums = list(range(n))
+        k = r.randrange(1, n) if n > 1 else 0
+        for i in range(k):
+            nums[i] = -r.randrange(1, 6) - 10 * (k - i)
+        if r.random() < .5:
+            r.shuffle(nums)
+        return nums
+    if x < .75:
+        lo = -r.choice([1, 2, n, 128, 129, 40000])
+        nums = r.sample(range(lo, lo + n + r.choice([0, 1, 3, 300])), n)
+        if r.random() < .5:
+            nums.sort()
+        return nums
+    nums = r.sample(range(0, r.choice([n + 3, 300, 70000])), n)
+    if r.random() < .5:
+        nums.sort()
+    return nums
 
 
 class Gen(object):
@@ -426,12 +463,7 @@ class Gen(object):
         r = self.rng
         cnt = r.choice([1, 2, 2, 3, 3, 4, 5, 7, 8, 9, 16, 17])
         names = r.sample(ENUM_NAMES, min(cnt, len(ENUM_NAMES)))
-        if r.random() < .6:
-            nums = list(range(len(names)))
-        else:
-            nums = r.sample(range(0, r.choice([len(names) + 3, 300, 70000])), len(names))
-            if r.random() < .5:
-                nums.sort()
+        nums = enum_numbers(r, len(names))
         return TEnum(list(zip(names, nums)), ext=r.random() < self.features.get('enum_ext', 0))
 
     def any_type(self, depth, names):
